@@ -2,6 +2,7 @@ package schema
 
 import (
 	"fmt"
+	"math"
 	"reflect"
 	"strconv"
 )
@@ -116,6 +117,12 @@ func (f FloatSchema) Serialize(d any) (any, error) {
 	data, err := asFloat(d)
 	if err != nil {
 		return data, err
+	}
+	if (f.MinValue != nil || f.MaxValue != nil) && math.IsNaN(data) {
+		// NaN compares false with everything, so it would slip through both bound checks below.
+		return data, &ConstraintError{
+			Message: "NaN is not within the allowed range",
+		}
 	}
 	if f.MinValue != nil && data < *f.MinValue {
 		return data, &ConstraintError{
